@@ -14,11 +14,21 @@ LEVEL_TEXT = (
     "the remembered scale b of the three b-scaled transforms is set once (results after that are independent of call "
     "order); the Coulomb loader returns new arrays. The discipline, the scale update and the loader facts are regenerated "
     "from the source on every run; the machine is tied to the implementation by differential runs of random histories "
-    "(content and np.shares_memory identity of every returned array, cache keys)."
+    "(content and np.shares_memory identity of every returned array, cache keys). Round 3: the translator enumerates, from the "
+    "AST of every module, every module-level object with every use of it, every function-cache decorator / import, mutable "
+    "default arguments, class-level objects, global/nonlocal statements and every instance attribute assigned outside __init__; "
+    "theorems over that regenerated list: each module-level object is a constant table (no writer, never handed out) or one of "
+    "the five registered caches with exactly its registered uses; a frame theorem (tables never change under any history of "
+    "calls and caller edits); the cache protocol of the alias machine is the one in the source (one dictionary per method, key = "
+    "resolved degree, store only under `if cache`); a memo machine with the regenerated setter / accessor facts (kd-trees are "
+    "current in every history of queries and assignments; a call of a b-scaled transform that is rejected leaves no trace, so "
+    "the scale after any history is the maximum of the first accepted grid (regenerated order of check and assignment, repair "
+    "92a7e5b); the spherical-harmonics memo handed out by reference and the kd-tree after an in-place edit without assignment "
+    "are outside the property (DESIGN 8.3) and are only described as they are by witness theorems)."
 )
 TECHNIQUE = "Lean 4 proof (state-machine invariant over all operation histories, regenerated discipline) + differential histories"
 GEN = ["angular_cache"]
-LEAN_MODULES = ["GridVerif.Props.C19"]
+LEAN_MODULES = ["GridVerif.Props.C19", "GridVerif.Props.C19.State", "GridVerif.Props.C19.BReject"]
 THEOREMS = [
     "GridVerif.C19.safe_init",
     "GridVerif.C19.step_safe",
@@ -30,6 +40,34 @@ THEOREMS = [
     "GridVerif.C19.b_results_order_independent",
     "GridVerif.C19.b_first_call_fixes",
     "GridVerif.C19.b_only_set_by_setter_and_loader_fresh",
+    # round 3: the regenerated enumeration of everything that outlives a call (Gen/ModuleState.lean)
+    "GridVerif.C19.module_objects_disciplined",
+    "GridVerif.C19.registered_caches_present",
+    "GridVerif.C19.module_object_names_unique",
+    "GridVerif.C19.no_other_process_state",
+    "GridVerif.C19.cache_protocol_as_modelled",
+    "GridVerif.C19.gstep_frame",
+    "GridVerif.C19.grun_frame",
+    "GridVerif.C19.module_tables_never_change",
+    "GridVerif.C19.late_attrs_registered",
+    "GridVerif.C19.memos_registered",
+    "GridVerif.C19.kdtree_cfg_safe",
+    "GridVerif.C19.mstep_inv",
+    "GridVerif.C19.memo_queries_current",
+    "GridVerif.C19.kdtree_always_current",
+    "GridVerif.C19.memo_stale_without_reset",
+    "GridVerif.C19.basis_cfg_as_is",
+    "GridVerif.C19.basis_memo_corruptible_at",
+    "GridVerif.C19.basis_current_without_edits",
+    "GridVerif.C19.memo_stale_after_inplace_edit_at",
+    # the remembered scale and a rejected call (regenerated order of assignment and check)
+    "GridVerif.C19.setMaxBChecked_state",
+    "GridVerif.C19.b_fixed_never_rejects",
+    "GridVerif.C19.b_first_call_rejects_iff",
+    "GridVerif.C19.b_rejected_call_leaves_no_trace",
+    "GridVerif.C19.b_history_ignores_rejected_calls",
+    "GridVerif.C19.b_history_after_rejection_at",
+    "GridVerif.C19.b_partial_no_rejection",
 ]
 RULE = (
     "histories of 3..14 operations on one process state: AngularGrid(degree, method, cache on/off) over 4 methods x a "
@@ -37,17 +75,29 @@ RULE = (
     "the Lean machine op by op (content equals shipped?, identity of returned arrays, final cache keys). b-histories: "
     "explicit or inferred b, random order of transform/deriv/deriv2/deriv3/inverse calls on different grids. "
     "Non-trivial = history with at least one edit between two constructions of the same key (cache) / at least two calls "
-    "with different grid maxima (b)."
+    "with different grid maxima (b). Round 3: every method x first call in a fresh state with cache off / on x second "
+    "call off / on x edit of points / weights / both / through the setters (classes 9-11); the Coulomb table reset "
+    "to its unloaded state and first loaded by number / symbol; pro-atom densities, covalent radii and Becke weights "
+    "in interleaved orders with edits of everything returned; two b-scaled transforms alternating; the spherical-"
+    "harmonics memo of AtomGrid (two accessors in either order, two functions alternating); MolGrid with stored and "
+    "unstored atomic grids edited after construction; kd-tree histories (query / assign / edit-and-reassign) on Grid, "
+    "OneDGrid, AtomGrid and PeriodicGrid against the memo machine; the enumeration of module-level objects against the "
+    "objects the imported modules really hold, and a snapshot of every one of them before and after all histories."
 )
 TRUSTED_BASE = [
     "Lean 4.33 kernel; axioms propext, Classical.choice, Quot.sound only (audited per theorem)",
     "translator harness/translate/angular_cache.py (classifies the two super().__init__ argument pairs as new array / "
     "cached object, recognises the cache fill and reuse statements, the set_maximum_parameter_b body, the loader's returns)",
     "hand model Model/Aliasing.lean of the cache protocol; NumPy: .copy() and arithmetic give new arrays",
+    "translator angular_cache.py, round 3 part (module_state): classifies every use of a module-level name inside every "
+    "function (alias tracking through assignments, np.asarray and calls of functions of the same module); a subscript "
+    "read of a module-level array is taken to yield an element or a copy; uses it cannot classify raise",
 ]
 ASSUMPTIONS = [
-    "np.load returns new arrays per call; module-level cache dicts are only touched by AngularGrid.__init__ "
-    "(effects IR of C20 shows no other writer)",
+    "np.load returns new arrays per call (that the module-level cache dicts are only touched by AngularGrid.__init__ is "
+    "now the theorem module_objects_disciplined over the regenerated enumeration)",
+    "module-level objects are reached through their names or through `module.name` of an imported grid module "
+    "(getattr / globals() / vars() tricks are outside the enumeration; the snapshot comparison of the oracle covers them)",
     "atomic and molecular grids derive their arrays from AngularGrid instances by arithmetic (new arrays): checked by the oracle histories",
 ]
 
@@ -87,10 +137,11 @@ def _history(ctx: Ctx, ang):
     n = ctx.rng.randrange(3, 15)
     ops, nconstruct = [], 0
     pool = [(m, d) for m in ctx.rng.sample(METHODS, ctx.rng.randrange(1, 3)) for d in ctx.rng.sample(_degree_pool(ang, m), 2)]
+    cold_first = ctx.rng.random() < 0.35     # class 11: the first construction of the process with cache=False
     for _ in range(n):
         if nconstruct == 0 or ctx.rng.random() < 0.55:
             m, d = ctx.rng.choice(pool)
-            ops.append(("c", m, d, ctx.rng.random() < 0.7))
+            ops.append(("c", m, d, (ctx.rng.random() < 0.7) and not (cold_first and nconstruct == 0)))
             nconstruct += 1
         else:
             ops.append(("e", ctx.rng.randrange(nconstruct), ctx.rng.choice("pw"), ctx.rng.randrange(1, 900)))
@@ -170,13 +221,16 @@ def corr(ctx: Ctx):
         j = 0
         ok = True
         why = ""
+        ship_lines = [f"C19.shipped {METHODS.index(o[1])} {int(ang.AngularGrid._get_degree_and_size(degree=o[2], size=None, method=o[1])[0])}"
+                      for o in ops if o[0] == "c"]
+        ships = iter(driver_batch(ship_lines))
         for op, mo in zip(ops, mouts):
             if op[0] != "c":
                 continue
             _, m, d, cache = op
             deg = ang.AngularGrid._get_degree_and_size(degree=d, size=None, method=m)[0]
             pc, wc, pv, wv = (int(x) for x in mo)
-            sp, sw = (int(x) for x in driver_batch([f"C19.shipped {METHODS.index(m)} {int(deg)}"])[0].split()[1:])
+            sp, sw = (int(x) for x in next(ships).split()[1:])
             m_ok = (pv == sp, wv == sw)
             m_pid = seen_cells.get(pc)
             m_wid = seen_cells.get(wc)
@@ -200,7 +254,10 @@ def corr(ctx: Ctx):
         if not ok:
             ctx.fail("corr", "angular.AngularGrid:cache-protocol", why, witness={"history": [list(o) for o in ops]})
     _b_corr(ctx)
+    _b_reject_corr(ctx)
     _coulomb_corr(ctx, facts)
+    _state_corr(ctx)
+    _memo_corr(ctx)
 
 
 B_CLASSES = {
@@ -215,22 +272,37 @@ B_METHODS = {
 }
 
 
-def _b_history(ctx: Ctx, cls):
+def _b_history(ctx: Ctx, cls, scales=False):
     b0 = None if ctx.rng.random() < 0.6 else float(ctx.rng.randrange(3, 40))
     calls = []
     for _ in range(ctx.rng.randrange(2, 8)):
         meth = ctx.rng.choice(B_METHODS[cls])
         n = ctx.rng.randrange(3, 12)
         x = np.arange(n, dtype=float) if meth != "inverse" else np.linspace(0.2, 11.0, n)
+        if scales and meth != "inverse" and ctx.rng.random() < 0.4:
+            x = x * 2.0 ** ctx.rng.choice([-50, -40, -20, -3, 5, 20, 40])      # class 8: grids of extreme magnitude
         calls.append((meth, x))
     return b0, calls
+
+
+def _b_snippet(cls, b0, bfix, first, order):
+    def arr(x):
+        return f"np.array({np.asarray(x).tolist()!r})"
+    lines = ["import warnings; warnings.filterwarnings('ignore')", "import numpy as np", "from grid import rtransform as rt",
+             f"x = np.linspace(0.5, 7.5, 5); ref = rt.{cls}(0.1, 12.0, b={bfix!r}).transform(x)", f"tf = rt.{cls}(0.1, 12.0, b={b0!r})"]
+    if first is not None:
+        lines.append(f"tf.{first[0]}({arr(first[1])})      # the first call fixes the scale to {bfix!r}")
+    for meth, xx in order:
+        lines.append(f"tf.{meth}({arr(xx)})")
+    lines.append("assert np.array_equal(tf.transform(x), ref), 'the scale was changed by later calls / is shared with other objects'")
+    return "\n".join(lines) + "\n"
 
 
 def _b_corr(ctx: Ctx):
     rt = importlib.import_module("grid.rtransform")
     for _ in range(ctx.n(60, 1500)):
         cls = ctx.rng.choice(list(B_CLASSES))
-        b0, calls = _b_history(ctx, cls)
+        b0, calls = _b_history(ctx, cls, scales=True)
         tf = B_CLASSES[cls](rt, b0)
         trace = []
         for meth, x in calls:
@@ -246,6 +318,45 @@ def _b_corr(ctx: Ctx):
         if [None if t is None else float(t) for t in trace] != model:
             ctx.fail("corr", f"rtransform.{cls}.b", f"remembered scale after each call: implementation {trace}, model {model}",
                      witness={"class": cls, "b": b0, "calls": [(m, x.tolist()) for m, x in calls]})
+
+
+TINY = [0.0, -0.0, 1e-300, 1e-17, 0.99e-16, 1e-16, 1.01e-16, 1e-14, -1e-17, -1.01e-16]     # class 7: both sides of the 1e-16 window
+
+
+def _b_reject_corr(ctx: Ctx):
+    """Histories in which some grids have a (nearly) zero maximum: which calls raise ValueError and what
+    the object remembers after each call, against the regenerated `setMaxBChecked_*` (code as it is)."""
+    rt = importlib.import_module("grid.rtransform")
+    for _ in range(ctx.n(40, 800)):
+        cls = ctx.rng.choice(list(B_CLASSES))
+        b0 = None if ctx.rng.random() < 0.75 else float(ctx.rng.choice([3.0, 1e-17, 2e-16]))
+        tf = B_CLASSES[cls](rt, b0)
+        maxima, impl = [], []
+        for _ in range(ctx.rng.randrange(1, 6)):
+            mx = ctx.rng.choice(TINY) if ctx.rng.random() < 0.5 else float(ctx.rng.randrange(1, 9))
+            n = ctx.rng.randrange(2, 6)
+            x = np.array([mx - k for k in range(n)])          # maximum exactly mx (also for -0.0), anywhere in the array
+            ctx.np_rng.shuffle(x)
+            meth = ctx.rng.choice(["transform", "deriv"])
+            raised = False
+            try:
+                with np.errstate(all="ignore"):
+                    getattr(tf, meth)(x)
+            except ValueError:
+                raised = True
+            except (ZeroDivisionError, FloatingPointError):
+                pass
+            maxima.append(float(np.max(x)))
+            impl.append((None if tf.b is None else float(tf.b), raised))
+        line = f"C19.bchk {cls} {'none' if b0 is None else f2b(b0)} {len(maxima)} " + " ".join(f2b(m) for m in maxima)
+        ans = driver_batch([line])[0].split()[1:]
+        model = [(None if ans[2 * i] == "none" else b2f(ans[2 * i]), ans[2 * i + 1] == "1") for i in range(len(maxima))]
+        ctx.count(["b-reject-history", cls, b0, maxima], nontrivial=any(abs(m) < 1e-13 for m in maxima), tag=f"b-reject:{cls}")
+        ctx.traces += 1
+        same = all((a[1] == b[1]) and ((a[0] is None) == (b[0] is None)) and (a[0] is None or f2b(a[0]) == f2b(b[0])) for a, b in zip(impl, model))
+        if not same:
+            ctx.fail("corr", f"rtransform.{cls}.b:rejected-call", f"(remembered scale, ValueError raised) after each call: implementation {impl}, model {model}",
+                     witness={"class": cls, "b": b0, "maxima": maxima})
 
 
 def _coulomb_corr(ctx: Ctx, facts):
@@ -282,6 +393,17 @@ assert np.array_equal(h.points, rp) and np.array_equal(h.weights, rw), 'a later 
 
 
 def oracle(ctx: Ctx, budget: str):
+    """Rounds 1-2 (`_oracle_histories`) and round 3 (`_oracle_round3`), between two snapshots of every
+    module-level object the translator enumerates: no history may change any of them."""
+    procs = _pristine_start()
+    snap = _snapshot_state()
+    _oracle_histories(ctx, budget)
+    _oracle_round3(ctx, budget)
+    _pristine_compare(ctx, procs, budget)
+    _compare_snapshot(ctx, snap)
+
+
+def _oracle_histories(ctx: Ctx, budget: str):
     """On the implementation alone: after arbitrary histories (angular, atomic, molecular grids, shell
     extraction, in-place edits of everything returned) every later construction equals the one made in a
     pristine state; b: results after fixing do not depend on call order; Coulomb loader: equal values."""
@@ -375,7 +497,7 @@ def oracle(ctx: Ctx, budget: str):
     # b: order independence once fixed
     for _ in range(reps * 3):
         cls = ctx.rng.choice(list(B_CLASSES))
-        b0, calls = _b_history(ctx, cls)
+        b0, calls = _b_history(ctx, cls, scales=True)
         bfix = b0 if b0 is not None else float(np.max(calls[0][1]))
         x = np.linspace(0.5, 7.5, 5)
         ref = B_CLASSES[cls](rt, bfix).transform(x)
@@ -389,15 +511,11 @@ def oracle(ctx: Ctx, budget: str):
         for meth, xx in order:
             getattr(tf, meth)(xx)
         got = tf.transform(x)
-        ctx.count(["oracle-b", cls, b0], nontrivial=True, tag="oracle:b")
-        if not np.array_equal(got, ref):
+        ctx.count(["oracle-b", cls, b0, bfix], nontrivial=True, tag="oracle:b")
+        if not np.array_equal(got, ref, equal_nan=True):
             ctx.fail("oracle", f"rtransform.{cls}.b", f"{cls}: transform after a history of calls differs from a transform with the same fixed scale b={bfix}",
                      witness={"class": cls, "b": b0, "calls": [(m, xx.tolist()) for m, xx in calls]},
-                     snippet=(
-                         "import warnings; warnings.filterwarnings('ignore')\nimport numpy as np\nfrom grid import rtransform as rt\n"
-                         f"tf = rt.{cls}(0.1, 12.0, b={bfix}); x = np.linspace(0.5, 7.5, 5); ref = rt.{cls}(0.1, 12.0, b={bfix}).transform(x)\n"
-                         "tf.deriv(np.arange(30.0)); tf.transform(np.arange(3.0))\n"
-                         "assert np.array_equal(tf.transform(x), ref), 'scale changed by later calls'\n"))
+                     snippet=_b_snippet(cls, b0, bfix, calls[0] if b0 is None else None, order))
     # Coulomb loader: equal values on every call, also after the caller edited an earlier result
     for el in ("H", "C", 8, 26):
         try:
@@ -414,3 +532,1135 @@ def oracle(ctx: Ctx, budget: str):
                      witness={"element": str(el)},
                      snippet=("import numpy as np\nfrom grid.coulomb import load_atomic_gaussian_params as L\n"
                               f"c, a = L({el!r}); k = c.copy(); c[...] = 0\nassert np.array_equal(L({el!r})[0], k)\n"))
+
+
+# ==========================================================================================
+# Round 3
+# ==========================================================================================
+MEMO_F = 100000          # Driver/C19.lean: memoF x = x + 100000
+
+
+def _translator():
+    return importlib.import_module("harness.translate.angular_cache")
+
+
+def _is_mutable(v):
+    return isinstance(v, (dict, list, set, bytearray, np.ndarray))
+
+
+def _has_mutable_elements(v):
+    if isinstance(v, dict):
+        return any(_is_mutable(x) or (isinstance(x, tuple) and any(_is_mutable(y) for y in x)) for x in v.values())
+    if isinstance(v, (list, set)):
+        return any(_is_mutable(x) or (isinstance(x, tuple) and any(_is_mutable(y) for y in x)) for x in v)
+    if isinstance(v, np.ndarray):
+        return v.dtype == object
+    return False
+
+
+def _runtime_objects(mods):
+    """Module-level objects the imported modules really hold: (module, name) -> object, for every global
+    bound in that module (not imported into it) whose value is a mutable container."""
+    out = {}
+    tr = _translator()
+    import ast
+    for p in tr._modules():
+        mod = importlib.import_module("grid." + p.stem) if p.stem != "__init__" else importlib.import_module("grid")
+        import warnings
+        with warnings.catch_warnings():
+            warnings.simplefilter("ignore")
+            tree = ast.parse(p.read_text())
+        imported = set()
+        for n in ast.walk(tree):
+            if isinstance(n, (ast.Import, ast.ImportFrom)):
+                for a in n.names:
+                    imported.add((a.asname or a.name).split(".")[0])
+        for nm, v in vars(mod).items():
+            if nm in imported or nm.startswith("__") and nm != "__all__":
+                continue
+            if isinstance(v, type) or callable(v) or isinstance(v, type(importlib)):
+                continue
+            if _is_mutable(v):
+                out[(p.stem, nm)] = v
+    # `from grid.x import *` in the package's __init__ re-exports objects of the other modules
+    defined = {id(v) for (m, _), v in out.items() if m != "__init__"}
+    return {k: v for k, v in out.items() if not (k[0] == "__init__" and id(v) in defined)}
+
+
+def _state_corr(ctx: Ctx):
+    """The regenerated enumeration (through the compiled driver) against the objects the imported modules hold."""
+    ans = driver_batch(["C19.objects", "C19.state", "C19.memos", "C19.modules"])
+    model = {}
+    for tok in ans[0].split()[1:]:
+        q, st, kind = tok.split(":", 2)
+        model[tuple(q.split(".", 1))] = (st, kind)
+    tr = _translator()
+    mods = ans[3].split()[1:]
+    ctx.count(["state-modules", mods], nontrivial=True, tag="state:modules")
+    if sorted(mods) != sorted(p.stem for p in tr._modules()):
+        ctx.fail("corr", "module-state:modules", f"modules in the generated enumeration {sorted(mods)} differ from the source files {sorted(p.stem for p in tr._modules())}")
+    rt = _runtime_objects(mods)
+    # make the lazily created state exist before looking at it
+    ang = importlib.import_module("grid.angular")
+    cou = importlib.import_module("grid.coulomb")
+    _clear(ang)
+    ang.AngularGrid(degree=3, method="lebedev")
+    cou.load_atomic_gaussian_params("H")
+    rt = _runtime_objects(mods)
+    for key, v in sorted(rt.items()):
+        ctx.count(["state-object", list(key)], nontrivial=True, tag="state:object")
+        if key not in model:
+            ctx.fail("corr", "module-state:enumeration",
+                     f"module-level mutable object grid.{key[0]}.{key[1]} ({type(v).__name__}) exists in the imported module but is not in the generated enumeration",
+                     witness={"module": key[0], "name": key[1], "type": type(v).__name__})
+            continue
+        st = model[key][0]
+        if st == "const" and _has_mutable_elements(v):
+            ctx.fail("corr", "module-state:elements",
+                     f"grid.{key[0]}.{key[1]} is classified as a constant table but holds mutable elements (lists / arrays / dicts)",
+                     witness={"module": key[0], "name": key[1]})
+    state_objs = sorted(k for k, (st, _) in model.items() if st == "state")
+    expect = sorted([("angular", c) for c in CACHES.values()] + [("coulomb", "_ATOMIC_GAUSS_PARAMS_CACHE")])
+    if state_objs != expect:
+        ctx.fail("corr", "module-state:caches", f"objects with writers or escapes in the generated enumeration: {state_objs}; the caches the harness knows how to reset and inspect: {expect}")
+    # function caches: nothing in the modules may carry the marks of functools caches
+    nfc = int(ans[1].split()[1])
+    found = []
+    for p in tr._modules():
+        if p.stem == "__init__":
+            continue
+        mod = importlib.import_module("grid." + p.stem)
+        for nm, v in vars(mod).items():
+            cands = [(nm, v)]
+            if isinstance(v, type) and getattr(v, "__module__", "") == mod.__name__:
+                cands += [(f"{nm}.{k}", getattr(v, k, None)) for k in vars(v)]
+            for q, f in cands:
+                g = getattr(f, "__func__", f)
+                g = getattr(g, "fget", g) if isinstance(g, property) else g
+                if getattr(g, "__module__", None) != mod.__name__ and not isinstance(f, (property,)):
+                    continue
+                if hasattr(g, "cache_info") or hasattr(g, "cache_clear") or type(f).__name__ == "cached_property":
+                    found.append(f"{p.stem}.{q}")
+    ctx.count(["state-function-caches", found], nontrivial=True, tag="state:function-caches")
+    if len(found) != nfc:
+        ctx.fail("corr", "module-state:function-caches", f"functions carrying a functools cache in the imported modules: {found}; the generated enumeration lists {nfc}")
+    _clear(ang)
+    ctx.extra["module_objects"] = len(model)
+
+
+def _grid_factories(ctx):
+    """(name, constructor(points, weights) for the kd-tree histories, dimension)"""
+    bg = importlib.import_module("grid.basegrid")
+    pg = importlib.import_module("grid.periodicgrid")
+    out = [("Grid:3d", lambda p, w: bg.Grid(p, w), 3), ("Grid:2d", lambda p, w: bg.Grid(p, w), 2),
+           ("Grid:1d", lambda p, w: bg.Grid(p, w), 1),
+           ("PeriodicGrid:3d", lambda p, w: pg.PeriodicGrid(p, w, np.diag([1.5, 2.0, 2.5])), 3),
+           ("PeriodicGrid:1d", lambda p, w: pg.PeriodicGrid(p, w, np.array([2.0])), 1)]
+    return out
+
+
+def _local_key(lg):
+    """Order-free content of a LocalGrid."""
+    wts = np.asarray(lg.weights).ravel()
+    n = len(wts)
+    if n == 0:
+        return (np.zeros((0, 1)), wts)
+    pts = np.asarray(lg.points, dtype=float).reshape(n, -1)
+    o = np.lexsort(np.vstack([wts[None, :], pts.T]))
+    return (pts[o], wts[o])
+
+
+def _same_local(a, b):
+    ka, kb = _local_key(a), _local_key(b)
+    return len(ka[1]) == len(kb[1]) and (len(ka[1]) == 0 or (ka[0].shape == kb[0].shape and np.array_equal(ka[0], kb[0]) and np.array_equal(ka[1], kb[1])))
+
+
+def _kd_points(ctx, n, dim):
+    p = ctx.np_rng.uniform(-1.0, 1.0, (n, dim))
+    return p[:, 0].copy() if dim == 1 else p
+
+
+def _memo_corr(ctx: Ctx):
+    """Histories on the memos of the library against the memo machine with the regenerated configuration.
+    kd-tree: q = get_localgrid, s = `grid.points = new array`, r = edit in place and assign the same object;
+    basis:   q = radial_component_splines, h = `grid.basis`, e = edit of the array `basis` returned."""
+    atg = importlib.import_module("grid.atomgrid")
+    rt = importlib.import_module("grid.rtransform")
+    one = importlib.import_module("grid.onedgrid")
+    facs = _grid_factories(ctx)
+    for _ in range(ctx.n(24, 600)):
+        name, make, dim = ctx.rng.choice(facs)
+        n = ctx.rng.choice([1, 2, 5, 17, 60, 150])
+        contents = [_kd_points(ctx, n, dim) for _ in range(4)]
+        w = np.ones(n)
+        g = make(contents[0].copy(), w.copy())
+        center = np.zeros(dim) if dim > 1 else np.array(0.0)
+        radius = ctx.rng.choice([0.3, 0.7, 1.2])
+        ops, toks, cur = [], [], 0
+        impl_current = []
+        for _ in range(ctx.rng.randrange(2, 9)):
+            r = ctx.rng.random()
+            if r < 0.5 or not ops:
+                ops.append("q")
+                toks.append("q")
+                got = g.get_localgrid(center, radius)
+                ref = make(contents[cur].copy(), w.copy()).get_localgrid(center, radius)
+                impl_current.append(_same_local(got, ref))
+            else:
+                cur = ctx.rng.randrange(4)
+                if r < 0.8:
+                    ops.append(("s", cur))
+                    g.points = contents[cur].copy()
+                else:
+                    ops.append(("r", cur))
+                    arr = g.points
+                    arr[...] = contents[cur]
+                    g.points = arr
+                toks += ["s", str(cur + 1)]
+        ans = driver_batch([f"C19.memo kdtree 1 " + " ".join(toks)])[0]
+        outs = [o.split() for o in ans[3:].split(";")]
+        model_current = [int(o[0]) == int(o[1]) + MEMO_F for o, t in zip(outs, [x for x in ops]) if t == "q"]
+        nontriv = any(o != "q" for o in ops[1:]) and ops.count("q") >= 2
+        ctx.count(["kdtree-history", name, n, [list(o) if isinstance(o, tuple) else o for o in ops]], nontrivial=nontriv,
+                  tag=f"memo:kdtree:{name}")
+        ctx.traces += 1
+        if model_current != impl_current:
+            ctx.fail("corr", f"basegrid.kdtree:{name.split(':')[0]}",
+                     f"{name}, {n} points: get_localgrid answers from the tree of the current points? model {model_current}, implementation {impl_current}",
+                     witness={"class": name, "n": n, "radius": radius, "ops": [list(o) if isinstance(o, tuple) else o for o in ops],
+                              "contents": [c.tolist() for c in contents]})
+    # spherical-harmonics memo of AtomGrid
+    rg = rt.BeckeRTransform(0.0, 1.5).transform_1d_grid(one.GaussLegendre(5))
+    for _ in range(ctx.n(10, 200)):
+        deg = ctx.rng.choice([3, 5, 7])
+        cen = np.array([0.0, 0.0, ctx.rng.choice([0.0, 0.5])])
+        a = atg.AtomGrid(rg, degrees=[deg], center=cen)
+        f = np.exp(-np.linalg.norm(a.points - cen, axis=1) ** 2) * (1.0 + a.points[:, 0])
+        ref = _spline_values(atg.AtomGrid(rg, degrees=[deg], center=cen).radial_component_splines(f))
+        ops, toks, impl_current, held = [], [], [], None
+        for _ in range(ctx.rng.randrange(2, 7)):
+            r = ctx.rng.random()
+            if r < 0.45 or not ops:
+                ops.append("q")
+                toks.append("q")
+                impl_current.append(bool(np.array_equal(_spline_values(a.radial_component_splines(f)), ref)))
+            elif r < 0.75:
+                ops.append("h")
+                toks.append("h")
+                b = a.basis
+                if b is not None:
+                    held = b
+            else:
+                v = ctx.rng.randrange(0, 3)
+                ops.append(("e", v))
+                toks += ["e", str(v)]
+                if held is not None:
+                    held[...] = float(v)
+        ans = driver_batch(["C19.memo basis 1 " + " ".join(toks)])[0]
+        outs = [o.split() for o in ans[3:].split(";")]
+        model_current = [int(o[0]) == int(o[1]) + MEMO_F for o, t in zip(outs, ops) if t == "q"]
+        ctx.count(["basis-history", deg, [list(o) if isinstance(o, tuple) else o for o in ops]],
+                  nontrivial=any(isinstance(o, tuple) for o in ops) and "h" in ops, tag="memo:basis")
+        ctx.traces += 1
+        if model_current != impl_current:
+            ctx.fail("corr", "atomgrid.AtomGrid.basis:memo",
+                     f"AtomGrid(degrees=[{deg}]): radial_component_splines computed from an untouched basis? model {model_current}, implementation {impl_current}",
+                     witness={"degree": deg, "center": cen.tolist(), "ops": [list(o) if isinstance(o, tuple) else o for o in ops]})
+
+
+def _spline_values(splines, r=(0.3, 0.9, 1.7)):
+    return np.array([[float(s(x)) for x in r] for s in splines])
+
+
+# ------------------------------------------------------------------------------------------
+def _snapshot_state():
+    """Deep copies of every module-level object of the enumeration and of the mutable default arguments."""
+    import copy
+    tr = _translator()
+    st = tr.module_state()
+    snap = {}
+    for o in st["objects"]:
+        try:
+            mod = importlib.import_module("grid." + o["module"])
+            snap[("obj", o["module"], o["name"])] = (copy.deepcopy(getattr(mod, o["name"])), bool(o["writers"]))
+        except Exception:   # noqa: BLE001 - an object that cannot be copied is reported by the correspondence
+            continue
+    for m, q, _ in st["mutable_defaults"]:
+        try:
+            obj = importlib.import_module("grid." + m)
+            for part in q.split("."):
+                obj = getattr(obj, part)
+            snap[("defaults", m, q)] = (copy.deepcopy((obj.__defaults__, obj.__kwdefaults__)), False)
+        except Exception:   # noqa: BLE001
+            continue
+    return snap
+
+
+def _deep_equal(a, b):
+    if isinstance(a, np.ndarray) or isinstance(b, np.ndarray):
+        return isinstance(a, np.ndarray) and isinstance(b, np.ndarray) and a.shape == b.shape and a.dtype == b.dtype \
+            and bool(np.array_equal(a, b, equal_nan=a.dtype.kind == "f"))
+    if isinstance(a, dict):
+        return isinstance(b, dict) and list(a.keys()) == list(b.keys()) and all(_deep_equal(a[k], b[k]) for k in a)
+    if isinstance(a, (list, tuple)):
+        return type(a) is type(b) and len(a) == len(b) and all(_deep_equal(x, y) for x, y in zip(a, b))
+    if isinstance(a, float) and a != a:
+        return isinstance(b, float) and b != b
+    return type(a) is type(b) and a == b
+
+
+def _compare_snapshot(ctx: Ctx, snap):
+    for (kind, m, nm), (old, is_cache) in snap.items():
+        try:
+            obj = importlib.import_module("grid." + m)
+            if kind == "obj":
+                new = getattr(obj, nm)
+            else:
+                for part in nm.split("."):
+                    obj = getattr(obj, part)
+                new = (obj.__defaults__, obj.__kwdefaults__)
+        except Exception:   # noqa: BLE001
+            continue
+        ctx.count(["snapshot", kind, m, nm], nontrivial=True, tag="oracle:snapshot")
+        if is_cache:
+            continue        # caches may fill; their *content* is compared with the shipped files by the histories
+        if not _deep_equal(old, new):
+            ctx.fail("oracle", f"module-state:{m}.{nm}",
+                     f"grid.{m}.{nm} ({'default arguments' if kind == 'defaults' else 'module-level table'}) is no longer what it was before the histories of this run",
+                     witness={"module": m, "name": nm},
+                     snippet=None)
+
+
+def _raw_file(ang, m, d):
+    deg, size = ang.AngularGrid._get_degree_and_size(degree=d, size=None, method=m)
+    with np.load(SRC / "data" / DIRS[m] / f"{m}_{deg}_{size}.npz") as z:
+        p, w = z["points"], z["weights"]
+    if len(w) == 1:
+        w = np.ones(len(p)) * w
+    return int(deg), int(size), p, w
+
+
+SNIP_FRESH = """import warnings; warnings.filterwarnings('ignore')
+import numpy as np
+from grid import angular as ang
+from grid.angular import AngularGrid
+method, degree, c0, c1, edit = {m!r}, {d}, {c0}, {c1}, {edit!r}
+for c in ('LEBEDEV_CACHE','SPHERICAL_CACHE','MAX_DET_CACHE','AHRENS_BEYLKIN_CACHE'): getattr(ang, c).clear()
+ref = AngularGrid(degree=degree, method=method, cache=False)
+rp, rw = ref.points.copy(), ref.weights.copy()
+for c in ('LEBEDEV_CACHE','SPHERICAL_CACHE','MAX_DET_CACHE','AHRENS_BEYLKIN_CACHE'): getattr(ang, c).clear()
+g = AngularGrid(degree=degree, method=method, cache=c0)      # first construction of a fresh state
+assert np.array_equal(g.points, rp) and np.array_equal(g.weights, rw), 'first grid differs from the uncached one'
+if 'p' in edit: g.points[...] = -7.0
+if 'w' in edit: g.weights[...] = -7.0
+if edit == 'setter':
+    p = g.points; p[...] = 3.0; g.points = p; g.weights = np.zeros_like(g.weights)
+h = AngularGrid(size=len(rw), method=method.upper(), cache=c1)
+assert np.array_equal(h.points, rp) and np.array_equal(h.weights, rw), 'a later grid of the same key differs from the shipped data'
+"""
+
+
+def _o_angular_matrix(ctx: Ctx, ang, reps):
+    """Classes 9-11 on the four caches: first call in a fresh state with cache off / on, then an edit of
+    points / weights / both / through the setters, then the same key again (by size, other spelling) with
+    cache off / on; the grids, the cache keys and the arrays the cache holds are compared with the files."""
+    for m in METHODS:
+        pool = _degree_pool(ang, m)
+        tab = sorted(int(k) for k in getattr(ang, PFX[m] + "_DEGREES"))
+        degs = [pool[0], ctx.rng.choice(pool[1:])] + ([ctx.rng.choice([t for t in tab if t <= 35])] if reps > 6 else [])
+        for d in degs:
+            deg, size, rp, rw = _raw_file(ang, m, d)
+            sw = rw * 4 * np.pi if SCALED[m] else rw
+            for c0 in (False, True):
+                for c1 in (False, True):
+                    for edit in ("p", "w", "pw", "setter"):
+                        _clear(ang)
+                        ctx.count(["oracle-fresh-state", m, d, c0, c1, edit], nontrivial=True, tag="oracle:fresh-state")
+                        g = ang.AngularGrid(degree=d, method=m, cache=c0)
+                        ok = np.array_equal(g.points, rp) and np.array_equal(g.weights, sw)
+                        if "p" in edit:
+                            g.points[...] = -7.0
+                        if "w" in edit:
+                            g.weights[...] = -7.0
+                        if edit == "setter":
+                            p = g.points
+                            p[...] = 3.0
+                            g.points = p
+                            g.weights = np.zeros_like(g.weights)
+                        h = ang.AngularGrid(size=size, method=m.upper() if c1 else m.title(), cache=c1)
+                        ok2 = np.array_equal(h.points, rp) and np.array_equal(h.weights, sw)
+                        if not (ok and ok2):
+                            what = "the first grid of a fresh state" if not ok else "the second grid of the key"
+                            ctx.fail("oracle", "angular.AngularGrid:cache:fresh-state",
+                                     f"AngularGrid({m}, degree {d}): fresh state, cache={c0}, edit {edit!r}, again (by size, cache={c1}): {what} "
+                                     f"differs from the shipped data",
+                                     witness={"method": m, "degree": d, "cache_first": c0, "cache_second": c1, "edit": edit},
+                                     snippet=SNIP_FRESH.format(m=m, d=d, c0=c0, c1=c1, edit=edit))
+        # the same number once as a degree and once as a size, in both orders (a key that mixes the two routes)
+        sizes = sorted(int(k) for k in getattr(ang, PFX[m] + "_NPOINTS"))
+        both = [k for k in range(1, 60) if k <= max(tab) and k <= max(sizes)]
+        for k in ctx.rng.sample(both, min(len(both), 3 if reps <= 6 else 8)):
+            for order in (("size", "degree"), ("degree", "size"), ("degree", "size", "degree")):
+                _clear(ang)
+                ctx.count(["oracle-routes", m, k, list(order)], nontrivial=True, tag="oracle:routes")
+                for route in order:
+                    g = ang.AngularGrid(method=m, **{route: k})
+                    deg, size = ang.AngularGrid._get_degree_and_size(degree=k if route == "degree" else None, size=k if route == "size" else None, method=m)
+                    _, _, rp, rw = _raw_file(ang, m, int(deg))
+                    sw = rw * 4 * np.pi if SCALED[m] else rw
+                    if g.points.shape != rp.shape or not (np.array_equal(g.points, rp) and np.array_equal(g.weights, sw)):
+                        ctx.fail("oracle", "angular.AngularGrid:cache:routes",
+                                 f"AngularGrid({route}={k}, method={m!r}) in the sequence {order} (cache on) has {len(g.weights)} points / data that differ from the file of degree {int(deg)} ({len(rw)} points)",
+                                 witness={"method": m, "number": k, "order": list(order)},
+                                 snippet=("import warnings; warnings.filterwarnings('ignore')\nimport numpy as np\nfrom grid import angular as ang\nfrom grid.angular import AngularGrid\n"
+                                          "clear = lambda: [getattr(ang, c).clear() for c in ('LEBEDEV_CACHE','SPHERICAL_CACHE','MAX_DET_CACHE','AHRENS_BEYLKIN_CACHE')]\n"
+                                          f"clear(); ref = AngularGrid(method={m!r}, {route}={k}, cache=False); clear()\n"
+                                          + "".join(f"g = AngularGrid(method={m!r}, {r_}={k})\n" for r_ in order[:order.index(route) + 1] if True)
+                                          + "assert g.points.shape == ref.points.shape and np.array_equal(g.points, ref.points) and np.array_equal(g.weights, ref.weights)\n"))
+                        break
+    _clear(ang)
+
+
+def _o_coulomb_fresh(ctx: Ctx, cou):
+    """The lazily loaded table from its unloaded state: first load by number / by symbol / by another
+    element, values against the JSON file read here, edits of everything returned in between."""
+    import json
+    raw = json.loads((SRC / "data" / "atomic_gauss_params.json").read_text())
+    utils = importlib.import_module("grid.utils")
+    cache_name = "_ATOMIC_GAUSS_PARAMS_CACHE"
+    els = [e for e in ("H", "C", "O", "Fe", "Xe") if e in raw]
+    for first in ("number", "symbol", "other", "lower"):
+        if hasattr(cou, cache_name):
+            setattr(cou, cache_name, None)
+        seq = list(els)
+        ctx.rng.shuffle(seq)
+        for k, el in enumerate(seq + seq[:2]):
+            z = utils.sym2num[el]
+            arg = z if (first == "number" and k == 0) or ctx.rng.random() < 0.3 else (el.lower() if first == "lower" else el)
+            if first == "other" and k == 0:
+                cou.load_atomic_gaussian_params(els[-1])
+            c, a = cou.load_atomic_gaussian_params(arg)
+            ctx.count(["oracle-coulomb-fresh", first, str(arg), k], nontrivial=True, tag="oracle:coulomb-fresh")
+            if not (np.array_equal(c, np.asarray(raw[el]["coeffs_s"], float)) and np.array_equal(a, np.asarray(raw[el]["alphas_s"], float))):
+                ctx.fail("oracle", "coulomb.load_atomic_gaussian_params:fresh-state",
+                         f"parameters of {arg!r} (call #{k} after the table was unloaded, first call by {first}) differ from atomic_gauss_params.json",
+                         witness={"element": str(arg), "first": first, "call": k},
+                         snippet=("import json, numpy as np\nimport grid.coulomb as cou\nfrom importlib.resources import files\n"
+                                  "raw = json.loads(files('grid.data').joinpath('atomic_gauss_params.json').read_text())\n"
+                                  f"cou._ATOMIC_GAUSS_PARAMS_CACHE = None\nfor el in {seq[:k + 1]!r}:\n"
+                                  "    c, a = cou.load_atomic_gaussian_params(el); k = (c.copy(), a.copy()); c[...] = 0; a[...] = 0\n"
+                                  "    c, a = cou.load_atomic_gaussian_params(el.lower())\n"
+                                  "    assert np.array_equal(c, np.asarray(raw[el]['coeffs_s'], float)) and np.array_equal(a, np.asarray(raw[el]['alphas_s'], float)), el\n"))
+            c[...] = -1.0
+            a[...] = -1.0
+
+
+def _o_hirshfeld(ctx: Ctx, reps):
+    """Pro-atom densities and Hirshfeld weights in interleaved orders with edits of everything returned,
+    against a spline of the shipped file built here."""
+    hw = importlib.import_module("grid.hirshfeld")
+    from scipy.interpolate import CubicSpline
+    H = hw.HirshfeldWeights
+    nums = sorted(int(p.stem[1:]) for p in (SRC / "data" / "proatoms").glob("a*.npz"))
+    pts = ctx.np_rng.uniform(-2.0, 2.0, (12, 3))
+    coord = np.array([0.1, -0.2, 0.3])
+
+    def ref(num):
+        with np.load(SRC / "data" / "proatoms" / f"a{num:03d}.npz") as z:
+            r, dn = z["r"], z["dn"]
+        return CubicSpline(r, dn, bc_type="natural", extrapolate=True)(np.linalg.norm(pts - coord, axis=-1))
+    refs = {n: ref(n) for n in nums}
+    obj = H()
+    for k in range(3 * reps):
+        num = ctx.rng.choice(nums)
+        route = ctx.rng.randrange(3)
+        ctx.count(["oracle-hirshfeld", num, route, k], nontrivial=True, tag="oracle:hirshfeld")
+        try:
+            if route == 0:
+                got = H.generate_proatom(pts, coord, num)
+            elif route == 1:
+                got = obj._get_proatom_density(num, np.linalg.norm(pts - coord, axis=-1))
+            else:
+                r, dn = H._load_npz_proatom(num)
+                got = CubicSpline(r, dn, bc_type="natural", extrapolate=True)(np.linalg.norm(pts - coord, axis=-1))
+                r[...] = 0.0
+                dn[...] = 0.0
+        except Exception as e:   # noqa: BLE001 - e.g. a spline of data an earlier caller edited
+            got = np.full(len(pts), np.nan)
+            ctx.info(f"hirshfeld route {route} raised {type(e).__name__}: {str(e)[:120]}")
+        if not np.allclose(got, refs[num], rtol=1e-13, atol=0.0):
+            ctx.fail("oracle", "hirshfeld.HirshfeldWeights:proatom",
+                     f"pro-atom density of Z={num} (call #{k}, route {route}) differs from the spline of the shipped file after earlier calls / edits of earlier results",
+                     witness={"num": num, "call": k, "route": route},
+                     snippet=("import numpy as np\nfrom grid.hirshfeld import HirshfeldWeights as H\n"
+                              f"p = np.linspace(-1, 1, 12).reshape(4, 3); c = np.zeros(3)\nref = H.generate_proatom(p, c, {num}).copy()\n"
+                              f"r, dn = H._load_npz_proatom({num}); r[...] = 0; dn[...] = 0\ng = H.generate_proatom(p, c, {num}); g[...] = 0\n"
+                              f"H.generate_proatom(p, c, 8)\nassert np.array_equal(H.generate_proatom(p, c, {num}), ref)\n"))
+        got[...] = -5.0
+    # weights of a diatomic, twice, other molecule in between, result edited
+    atc = np.array([[0.0, 0.0, -0.6], [0.0, 0.0, 0.6]])
+    ind = np.array([0, 6, 12])
+    w1 = obj(pts, atc, np.array([1, 8]), ind)
+    keep = w1.copy()
+    w1[...] = 0.0
+    H()(pts, atc, np.array([6, 7]), ind)
+    w2 = obj(pts, atc, np.array([1, 8]), ind)
+    ctx.count(["oracle-hirshfeld-weights"], nontrivial=True, tag="oracle:hirshfeld")
+    if not np.array_equal(w2, keep):
+        ctx.fail("oracle", "hirshfeld.HirshfeldWeights:weights", "Hirshfeld weights of the same molecule differ on a second call after the first result was edited and another molecule was evaluated",
+                 witness={"atnums": [1, 8]})
+
+
+def _o_becke(ctx: Ctx, reps):
+    """Covalent radii and Becke weights: tables against a copy taken at the start, results edited, two
+    objects with different radii alternating, the three public routes in either order, the caller's
+    dictionary edited after construction."""
+    utils = importlib.import_module("grid.utils")
+    bk = importlib.import_module("grid.becke")
+    tables = {t: utils.get_cov_radii(np.arange(1, 87), t).copy() for t in ("bragg", "cambridge", "alvarez")}
+    for k in range(3 * reps):
+        t = ctx.rng.choice(list(tables))
+        zs = sorted(ctx.rng.sample(range(1, 87), ctx.rng.randrange(1, 6)))
+        form = ctx.rng.randrange(4)
+        arg = zs[0] if form == 0 else (list(zs) if form == 1 else (np.array(zs) if form == 2 else np.array(zs, dtype=np.int32)))
+        got = utils.get_cov_radii(arg, t)
+        want = tables[t][np.array([zs[0]] if form == 0 else zs) - 1]
+        ctx.count(["oracle-cov-radii", t, form, zs], nontrivial=True, tag="oracle:cov-radii")
+        if not np.array_equal(got, want, equal_nan=True):
+            ctx.fail("oracle", "utils.get_cov_radii", f"get_cov_radii({arg!r}, {t!r}) differs from its first answer after earlier results were edited in place",
+                     witness={"atnums": zs, "type": t, "form": form},
+                     snippet=("import numpy as np\nfrom grid.utils import get_cov_radii as G\n"
+                              f"a = np.array({zs}); ref = G(a, {t!r}).copy(); r = G(a, {t!r}); r[...] = 0; r2 = G({zs[0]}, {t!r}); r2[...] = 0\n"
+                              f"assert np.array_equal(G(a, {t!r}), ref, equal_nan=True)\n"))
+        try:
+            got[...] = 0.0
+        except (TypeError, ValueError):
+            pass
+    pts = ctx.np_rng.uniform(-2.0, 2.0, (14, 3))
+    atc = np.array([[0.0, 0.0, -0.7], [0.0, 0.3, 0.7], [0.9, 0.0, 0.0]])
+    ind = np.array([0, 5, 9, 14])
+    # molecules that agree in size, first atom, multiset of atoms (a memo keyed too coarsely); Z=2: no Bragg radius (nan branch)
+    mols = [np.array(z) for z in ([1, 6, 8], [1, 8, 6], [1, 7, 7], [2, 1, 7], [8, 8, 1], [8, 1, 8], [6, 8, 1])]
+    user = {1: 0.8, 6: 1.4}
+    objs = [lambda: bk.BeckeWeights(), lambda: bk.BeckeWeights(radii=dict(user), order=2), lambda: bk.BeckeWeights(order=4)]
+    live = [f() for f in objs]
+    d_shared = dict(user)
+    live[1] = bk.BeckeWeights(radii=d_shared, order=2)
+    d_shared[1] = 9.0
+    d_shared[8] = 0.1                      # the caller goes on using its dictionary
+    hist = []
+    for k in range(6 * reps):
+        j = ctx.rng.randrange(3)
+        atn = mols[ctx.rng.randrange(len(mols))]
+        route = ctx.rng.randrange(3)
+        ctx.count(["oracle-becke", j, atn.tolist(), route], nontrivial=True, tag="oracle:becke")
+
+        def call(o):
+            if route == 0:
+                return o(pts, atc, atn, ind)
+            if route == 1:
+                return o.generate_weights(pts, atc, atn, pt_ind=ind)
+            return o.compute_weights(pts, atc, atn, pt_ind=ind)
+        got = call(live[j])
+        want = call(objs[j]())
+        if not np.array_equal(got, want, equal_nan=True):
+            ctx.fail("oracle", "becke.BeckeWeights:radii",
+                     f"BeckeWeights object #{j} (route {route}, atoms {atn.tolist()}, call #{k}) differs from a new object with the same parameters",
+                     witness={"object": j, "atnums": atn.tolist(), "route": route, "call": k},
+                     snippet=_becke_snippet(hist + [(j, atn.tolist(), route)]))
+        hist.append((j, atn.tolist(), route))
+        got[...] = 0.0
+
+
+def _becke_snippet(hist):
+    lines = ["import warnings; warnings.filterwarnings('ignore')", "import numpy as np", "from grid.becke import BeckeWeights",
+             "p = np.linspace(-2, 2, 42).reshape(14, 3) * np.array([1.0, -0.7, 0.4]); c = np.array([[0, 0, -.7], [0, .3, .7], [.9, 0, 0]]); i = np.array([0, 5, 9, 14])",
+             "new = [lambda: BeckeWeights(), lambda: BeckeWeights(radii={1: 0.8, 6: 1.4}, order=2), lambda: BeckeWeights(order=4)]",
+             "d = {1: 0.8, 6: 1.4}; live = [new[0](), BeckeWeights(radii=d, order=2), new[2]()]; d[1] = 9.0; d[8] = 0.1",
+             "def call(o, z, r):",
+             "    z = np.array(z)",
+             "    return o(p, c, z, i) if r == 0 else (o.generate_weights(p, c, z, pt_ind=i) if r == 1 else o.compute_weights(p, c, z, pt_ind=i))"]
+    for j, z, r in hist[:-1]:
+        lines.append(f"call(live[{j}], {z}, {r})[...] = 0")
+    j, z, r = hist[-1]
+    lines.append(f"assert np.array_equal(call(live[{j}], {z}, {r}), call(new[{j}](), {z}, {r}), equal_nan=True), 'weights depend on earlier calls'")
+    return "\n".join(lines) + "\n"
+
+
+def _o_b_objects(ctx: Ctx, rt, reps):
+    """Two b-scaled transforms alive at once (the scale is per object), results edited in place, the
+    accessor `b` and the public setter between calls, an explicit b seeing larger grids."""
+    for k in range(3 * reps):
+        cls = ctx.rng.choice(list(B_CLASSES))
+        xa = np.arange(ctx.rng.randrange(3, 9), dtype=float)
+        xb = np.arange(ctx.rng.randrange(10, 20), dtype=float)
+        ta, tb = B_CLASSES[cls](rt, None), B_CLASSES[cls](rt, None)
+        explicit = B_CLASSES[cls](rt, 7.0)
+        ref_a = B_CLASSES[cls](rt, float(xa.max()))
+        ref_b = B_CLASSES[cls](rt, float(xb.max()))
+        ref_e = B_CLASSES[cls](rt, 7.0)
+        ya = ta.transform(xa)
+        yb = tb.deriv(xb)
+        ya[...] = 0.0
+        yb[...] = 0.0
+        seq = []
+        for _ in range(ctx.rng.randrange(2, 7)):
+            who = ctx.rng.randrange(3)
+            meth = ctx.rng.choice(B_METHODS[cls] + ["b", "set"])
+            x = (xa, xb)[ctx.rng.randrange(2)]
+            seq.append((who, meth, len(x)))
+            t, r = ((ta, ref_a), (tb, ref_b), (explicit, ref_e))[who]
+            if meth == "b":
+                got, want = t.b, r.b if r.b is not None else None
+                bad = got is None or float(got) != float((xa.max(), xb.max(), 7.0)[who])
+            elif meth == "set":
+                t.set_maximum_parameter_b(x)
+                bad = float(t.b) != float((xa.max(), xb.max(), 7.0)[who])
+            else:
+                xx = np.linspace(0.2, 11.0, len(x)) if meth == "inverse" else x
+                got = getattr(t, meth)(xx)
+                want = getattr(r, meth)(xx)
+                bad = not np.array_equal(got, want, equal_nan=True)
+                got[...] = 0.0
+            if bad:
+                ctx.fail("oracle", f"rtransform.{cls}.b:objects",
+                         f"{cls}: object #{who} (scale fixed to {(xa.max(), xb.max(), 7.0)[who]}) gives another {meth} after the history {seq}",
+                         witness={"class": cls, "sequence": seq, "na": len(xa), "nb": len(xb)},
+                         snippet=("import warnings; warnings.filterwarnings('ignore')\nimport numpy as np\nfrom grid import rtransform as rt\n"
+                                  f"a = rt.{cls}(0.1, 12.0); b = rt.{cls}(0.1, 12.0); xa = np.arange({len(xa)}.0); xb = np.arange({len(xb)}.0)\n"
+                                  f"a.transform(xa)[...] = 0; b.deriv(xb)[...] = 0; a.deriv(xb); b.transform(xa); a.set_maximum_parameter_b(xb)\n"
+                                  f"assert a.b == xa.max() and b.b == xb.max()\n"
+                                  f"assert np.array_equal(a.transform(xb), rt.{cls}(0.1, 12.0, b=xa.max()).transform(xb))\n"))
+                break
+        ctx.count(["oracle-b-objects", cls, seq], nontrivial=True, tag="oracle:b-objects")
+
+
+def _basis_snippet(deg, cen, seq):
+    lines = ["import warnings; warnings.filterwarnings('ignore')", "import numpy as np", "from grid.atomgrid import AtomGrid",
+             "from grid.onedgrid import GaussLegendre", "from grid.rtransform import BeckeRTransform",
+             f"rg = BeckeRTransform(0.0, 1.5).transform_1d_grid(GaussLegendre(6)); cen = np.array({cen.tolist()})",
+             f"a = AtomGrid(rg, degrees=[{deg}], center=cen); b = AtomGrid(rg, degrees=[{deg}], center=cen)",
+             "r2 = np.sum((a.points - cen)**2, axis=1); fs = [np.exp(-r2), np.exp(-.5*r2)*(1 + (a.points - cen)[:, 2])]",
+             "p = np.array([[.3, .1, -.2], [0, .9, .4], [-1.1, .2, .3]]); val = lambda sp: np.array([[float(s(x)) for x in (.3, .9, 1.7)] for s in sp])"]
+    for j, meth in seq[:-1]:
+        if meth == "splines":
+            lines.append(f"for s in a.radial_component_splines(fs[{j}]): s.c[...] = 0")
+        else:
+            lines.append(f"a.interpolate(fs[{j}])(p)")
+    j, meth = seq[-1]
+    if meth == "splines":
+        lines.append(f"assert np.array_equal(val(a.radial_component_splines(fs[{j}])), val(b.radial_component_splines(fs[{j}]))), 'splines depend on earlier calls'")
+    else:
+        lines.append(f"assert np.array_equal(a.interpolate(fs[{j}])(p), b.interpolate(fs[{j}])(p)), 'interpolation depends on earlier calls'")
+    return "\n".join(lines) + "\n"
+
+
+def _o_basis(ctx: Ctx, reps):
+    """The spherical-harmonics memo of AtomGrid: `radial_component_splines` and `interpolate` in either
+    order, two functions alternating, edits of the splines / values returned, the default `degrees`
+    argument; every answer against a new AtomGrid.  Returns the observation about the accessor."""
+    atg = importlib.import_module("grid.atomgrid")
+    rt = importlib.import_module("grid.rtransform")
+    one = importlib.import_module("grid.onedgrid")
+    rg = rt.BeckeRTransform(0.0, 1.5).transform_1d_grid(one.GaussLegendre(6))
+    probe = np.array([[0.3, 0.1, -0.2], [0.0, 0.9, 0.4], [-1.1, 0.2, 0.3]])
+    for k in range(max(2, reps // 2)):
+        deg = ctx.rng.choice([3, 5, 7])
+        cen = np.array([0.0, ctx.rng.choice([0.0, 0.2, 0.4, 1024.0]), 0.0])      # (class 8: a centre far from the origin)
+        a = atg.AtomGrid(rg, degrees=[deg], center=cen)
+        r2 = np.sum((a.points - cen) ** 2, axis=1)
+        fs = [np.exp(-r2), np.exp(-0.5 * r2) * (1.0 + (a.points - cen)[:, 2])]
+
+        def fresh():
+            return atg.AtomGrid(rg, degrees=[deg], center=cen)
+        refs = [(_spline_values(fresh().radial_component_splines(f)), fresh().interpolate(f)(probe)) for f in fs]
+        seq = []
+        first_basis = a.basis
+        for _ in range(ctx.rng.randrange(3, 8)):
+            j = ctx.rng.randrange(2)
+            meth = ctx.rng.choice(["splines", "interpolate"])
+            seq.append((j, meth))
+            if meth == "splines":
+                sp = a.radial_component_splines(fs[j])
+                got, want = _spline_values(sp), refs[j][0]
+                for s_ in sp:
+                    s_.c[...] = 0.0           # the caller edits what it was given
+            else:
+                got, want = a.interpolate(fs[j])(probe), refs[j][1]
+                got = got.copy()
+            if not np.array_equal(got, want):
+                ctx.fail("oracle", "atomgrid.AtomGrid.basis:memo",
+                         f"AtomGrid(degrees=[{deg}]): {meth} of function #{j} after the history {seq} differs from a new AtomGrid's",
+                         witness={"degree": deg, "center": cen.tolist(), "sequence": seq, "basis_before_first_use": None if first_basis is None else "array"},
+                         snippet=_basis_snippet(deg, cen, seq))
+                break
+        ctx.count(["oracle-basis", deg, seq], nontrivial=True, tag="oracle:basis")
+    # default `degrees=[50]`: a mutable default argument; two default constructions, the first one's arrays edited
+    small = rt.BeckeRTransform(0.0, 1.5).transform_1d_grid(one.GaussLegendre(2))
+    g1 = atg.AtomGrid(small)
+    keep = (g1.points.copy(), g1.weights.copy(), list(g1.degrees))
+    g1.weights[...] = 0.0
+    try:
+        g1.degrees[0] = 3
+    except (TypeError, IndexError):
+        pass
+    g2 = atg.AtomGrid(small)
+    ctx.count(["oracle-default-degrees"], nontrivial=True, tag="oracle:basis")
+    if not (np.array_equal(g2.points, keep[0]) and np.array_equal(g2.weights, keep[1]) and list(g2.degrees) == keep[2]):
+        ctx.fail("oracle", "atomgrid.AtomGrid:default-degrees", "AtomGrid(rgrid) with the default `degrees` differs on the second construction after the first grid was edited (mutable default argument)",
+                 witness={"degrees_first": keep[2], "degrees_second": list(g2.degrees)},
+                 snippet=("import warnings; warnings.filterwarnings('ignore')\nimport numpy as np\nfrom grid.atomgrid import AtomGrid\nfrom grid.onedgrid import GaussLegendre\nfrom grid.rtransform import BeckeRTransform\n"
+                          "rg = BeckeRTransform(0.0, 1.5).transform_1d_grid(GaussLegendre(2)); a = AtomGrid(rg); n = a.size; a.degrees[0] = 3; a.weights[...] = 0\n"
+                          "b = AtomGrid(rg); assert b.size == n and b.weights.any()\n"))
+    # observation (code as it is, theorem basis_memo_corruptible_at): the accessor returns the memo itself
+    a = atg.AtomGrid(rg, degrees=[5])
+    r2 = np.sum(a.points ** 2, axis=1)
+    f = np.exp(-r2)
+    v1 = _spline_values(a.radial_component_splines(f))
+    b = a.basis
+    corrupt = False
+    if b is not None:
+        b[...] = 0.0
+        corrupt = not np.array_equal(_spline_values(a.radial_component_splines(f)), v1)
+    return {"basis_accessor_returns_the_memo_itself (edit changes later splines)": corrupt}
+
+
+def _o_molgrid_stored(ctx: Ctx, reps):
+    """MolGrid with stored / unstored atomic grids: after construction the caller edits the atomic
+    grids it passed in (and the list): points, weights, integrals and the per-atom grids handed out
+    must stay what they were."""
+    atg = importlib.import_module("grid.atomgrid")
+    rt = importlib.import_module("grid.rtransform")
+    one = importlib.import_module("grid.onedgrid")
+    mol = importlib.import_module("grid.molgrid")
+    bk = importlib.import_module("grid.becke")
+    rg = rt.BeckeRTransform(0.0, 1.5).transform_1d_grid(one.GaussLegendre(4))
+    obs = {}
+    for k in range(max(4, reps)):
+        store = bool(k % 2)
+        m = ctx.rng.choice(METHODS[:3])
+        d = ctx.rng.choice(_degree_pool(importlib.import_module("grid.angular"), m))
+        natom = 1 if k % 3 == 2 else 2
+        cs = ([0.0, 0.0, -0.7], [0.0, 0.0, 0.7])[:natom]
+        ats = [atg.AtomGrid(rg, degrees=[d], method=m, center=np.array(c)) for c in cs]
+        aim = bk.BeckeWeights()
+        mg = mol.MolGrid(np.array([1, 8][:natom]), ats, aim, store=store)
+        f = np.exp(-np.sum(mg.points ** 2, axis=1))
+        keep = dict(points=mg.points.copy(), weights=mg.weights.copy(), integral=mg.integrate(f),
+                    aim=mg.aim_weights.copy(), at0=(mg.get_atomic_grid(0).points.copy(), mg.get_atomic_grid(0).weights.copy()))
+        # the caller goes on using the atomic grids and the list it passed in
+        if not store:
+            ats[0].weights[...] = 0.0
+            ats[-1].center[...] = 5.0
+            ats.append("something else")
+        else:
+            ats[-1].get_shell_grid(1).weights[...] = 0.0
+            ats[-1].integrate(np.ones(ats[-1].size))
+            ats[-1].points[...] = 0.0            # (a new array on every access)
+        g0 = mg.get_atomic_grid(0)
+        ctx.count(["oracle-molgrid-stored", store, m, d, natom], nontrivial=True, tag="oracle:molgrid-stored")
+        ok = (np.array_equal(mg.points, keep["points"]) and np.array_equal(mg.weights, keep["weights"])
+              and mg.integrate(f) == keep["integral"] and np.array_equal(mg.aim_weights, keep["aim"])
+              and np.array_equal(g0.points, keep["at0"][0]) and np.array_equal(g0.weights, keep["at0"][1]))
+        if not ok:
+            ctx.fail("oracle", "molgrid.MolGrid:atgrids",
+                     f"MolGrid(store={store}) of {natom} {m} degree-{d} atom(s) changed after the caller edited the atomic grids it had passed in",
+                     witness={"store": store, "method": m, "degree": d, "atoms": natom},
+                     snippet=("import warnings; warnings.filterwarnings('ignore')\nimport numpy as np\nfrom grid.atomgrid import AtomGrid\nfrom grid.molgrid import MolGrid\nfrom grid.becke import BeckeWeights\nfrom grid.onedgrid import GaussLegendre\nfrom grid.rtransform import BeckeRTransform\n"
+                              f"rg = BeckeRTransform(0.0, 1.5).transform_1d_grid(GaussLegendre(4)); ats = [AtomGrid(rg, degrees=[{d}], method={m!r}, center=np.array(c)) for c in ([0, 0, -.7], [0, 0, .7])[:{natom}]]\n"
+                              f"mg = MolGrid(np.array([1, 8][:{natom}]), ats, BeckeWeights(), store={store}); p, w = mg.points.copy(), mg.weights.copy(); q = mg.get_atomic_grid(0).weights.copy()\n"
+                              + ("ats[0].weights[...] = 0; ats[-1].center[...] = 5\n" if not store else "ats[-1].get_shell_grid(1).weights[...] = 0\n")
+                              + "assert np.array_equal(mg.points, p) and np.array_equal(mg.weights, w) and np.array_equal(mg.get_atomic_grid(0).weights, q)\n"))
+        if not store:
+            lg = mg.get_atomic_grid(natom - 1)
+            obs["molgrid_unstored_atomic_grid_is_view"] = bool(np.shares_memory(lg.points, mg.points) or np.shares_memory(mg[natom - 1].weights, mg.weights))
+    return obs
+
+
+def _kdtree_snippet(name, n, variant, rad):
+    cls, dim = name.split(":")[0], int(name.split(":")[1][0])
+    ctor = {"Grid": "Grid(p, w)", "PeriodicGrid": ("PeriodicGrid(p, w, np.diag([1.5, 2.0, 2.5]))" if dim == 3 else "PeriodicGrid(p, w, np.array([2.0]))")}[cls]
+    return (f"import numpy as np\nfrom grid.basegrid import Grid\nfrom grid.periodicgrid import PeriodicGrid\nrng = np.random.default_rng(1); n, dim = {n}, {dim}\n"
+            "pts = lambda: (rng.uniform(-1, 1, (n, dim)) if dim > 1 else rng.uniform(-1, 1, n))\n"
+            f"make = lambda p, w: {ctor}\n"
+            "same = lambda a, b: len(a.weights) == len(b.weights) and np.array_equal(np.sort(np.asarray(a.points).reshape(len(a.weights), -1), axis=0), np.sort(np.asarray(b.points).reshape(len(b.weights), -1), axis=0))\n"
+            f"c = np.zeros(dim) if dim > 1 else np.array(0.0); rad = {rad}\n"
+            "for trial in range(20):\n"
+            "    p0, p1, p2, w = pts(), pts(), pts(), np.ones(n)\n"
+            "    g = make(p0.copy(), w.copy())\n"
+            + ("    g.get_localgrid(c, np.inf)\n" if variant == 3 and cls == "Grid" else "")
+            + "    l = g.get_localgrid(c, rad); l.points[...] = 9; l.weights[...] = 9\n"
+            "    assert np.array_equal(g.points, p0) and np.array_equal(g.weights, w), 'editing the local grid changed the parent'\n"
+            "    assert same(g.get_localgrid(c, rad), make(p0.copy(), w.copy()).get_localgrid(c, rad)), 'second query differs'\n"
+            + {0: "    g.points = p1.copy()\n", 3: "    g.points = p1.copy()\n", 1: "    a = g.points; a[...] = p1; g.points = a\n",
+               2: "    g.points = p2.copy(); g.get_localgrid(c, rad); g.points = p1.copy()\n"}[variant]
+            + "    assert same(g.get_localgrid(c, rad), make(p1.copy(), w.copy()).get_localgrid(c, rad)), 'query after assigning new points answers for other points'\n")
+
+
+def _o_kdtree(ctx: Ctx, reps):
+    """kd-tree memos (classes 9-11): query, assignment through the setter, edit-and-reassign, query; edits
+    of the local grid handed out; first query in a fresh state with radius inf (which builds no tree).
+    Every answer against a new grid object with the current points.  Returns the observations."""
+    atg = importlib.import_module("grid.atomgrid")
+    rt = importlib.import_module("grid.rtransform")
+    one = importlib.import_module("grid.onedgrid")
+    obs = {}
+    for k in range(2 * reps):
+        name, make, dim = ctx.rng.choice(_grid_factories(ctx))
+        n = ctx.rng.choice([3, 40, 120])
+        p0, p1, p2 = (_kd_points(ctx, n, dim) for _ in range(3))
+        w = ctx.np_rng.uniform(0.5, 1.5, n)
+        g = make(p0.copy(), w.copy())
+        c = np.zeros(dim) if dim > 1 else np.array(0.0)
+        rad = ctx.rng.choice([0.4, 0.9])
+        variant = ctx.rng.randrange(4)
+        ctx.count(["oracle-kdtree", name, n, variant], nontrivial=True, tag="oracle:kdtree")
+        if variant == 3 and not name.startswith("Periodic"):
+            g.get_localgrid(c, np.inf)                 # first call of a fresh object takes the branch that builds no tree
+        l0 = g.get_localgrid(c, rad)
+        ok = _same_local(l0, make(p0.copy(), w.copy()).get_localgrid(c, rad))
+        l0.points[...] = 9.0                           # the caller edits what it was given
+        l0.weights[...] = 9.0
+        ok = ok and np.array_equal(g.points, p0) and np.array_equal(g.weights, w)
+        ok = ok and _same_local(g.get_localgrid(c, rad), make(p0.copy(), w.copy()).get_localgrid(c, rad))
+        if variant in (0, 3):
+            g.points = p1.copy()
+        elif variant == 1:
+            arr = g.points
+            arr[...] = p1
+            g.points = arr
+        else:
+            g.points = p2.copy()
+            g.get_localgrid(c, rad)
+            g.points = p1.copy()
+        g.weights = w[::-1].copy()
+        l1 = g.get_localgrid(c, rad)
+        ok = ok and _same_local(l1, make(p1.copy(), w[::-1].copy()).get_localgrid(c, rad))
+        if not ok:
+            ctx.fail("oracle", f"basegrid.get_localgrid:kdtree:{name.split(':')[0]}",
+                     f"{name} with {n} points: get_localgrid after a query / edit of the local grid / assignment of new points (variant {variant}) differs from a new grid object with the same points",
+                     witness={"class": name, "n": n, "variant": variant, "radius": rad},
+                     snippet=_kdtree_snippet(name, n, variant, rad))
+    # AtomGrid.get_localgrid twice with an edit of the first result
+    rg = rt.BeckeRTransform(0.0, 1.5).transform_1d_grid(one.GaussLegendre(5))
+    a = atg.AtomGrid(rg, degrees=[5], center=np.array([0.0, 0.0, 0.5]))
+    l0 = a.get_localgrid(np.array([0.0, 0.0, 0.5]), 1.0)
+    keep = (np.sort(l0.indices), a.points.copy(), a.weights.copy())
+    l0.points[...] = 0.0
+    l0.weights[...] = 0.0
+    l1 = a.get_localgrid(np.array([0.0, 0.0, 0.5]), 1.0)
+    ctx.count(["oracle-kdtree-atomgrid"], nontrivial=True, tag="oracle:kdtree")
+    if not (np.array_equal(np.sort(l1.indices), keep[0]) and np.array_equal(a.points, keep[1]) and np.array_equal(a.weights, keep[2])
+            and np.array_equal(l1.points, a.points[l1.indices])):
+        ctx.fail("oracle", "basegrid.get_localgrid:kdtree:AtomGrid", "AtomGrid.get_localgrid: second answer / the atomic grid itself changed after the first local grid was edited",
+                 witness={"degree": 5})
+    # observations (code as it is)
+    bg = importlib.import_module("grid.basegrid")
+    p = ctx.np_rng.uniform(-1, 1, (300, 3))
+    g = bg.Grid(p.copy(), np.ones(300))
+    g.get_localgrid(np.zeros(3), 0.6)
+    g.points[...] = ctx.np_rng.uniform(-1, 1, (300, 3))
+    got = g.get_localgrid(np.zeros(3), 0.6)
+    ref = bg.Grid(g.points.copy(), np.ones(300)).get_localgrid(np.zeros(3), 0.6)
+    obs["kdtree_stale_after_inplace_edit_of_points"] = not _same_local(got, ref)
+    li = g.get_localgrid(np.zeros(3), np.inf)
+    obs["localgrid_radius_inf_shares_parent_arrays"] = bool(np.shares_memory(li.points, g.points) or np.shares_memory(li.weights, g.weights))
+    return obs
+
+
+EXC_SNIPPETS = {
+    "coulomb.load_atomic_gaussian_params:fresh-state": (
+        "import grid.coulomb as cou\ncou._ATOMIC_GAUSS_PARAMS_CACHE = None\ncou.load_atomic_gaussian_params(6)\n"
+        "cou._ATOMIC_GAUSS_PARAMS_CACHE = None\ncou.load_atomic_gaussian_params('c')\n"),
+}
+
+
+def _b_reject_snippet(cls, b0, seq, x):
+    lines = ["import warnings; warnings.filterwarnings('ignore')", "import numpy as np", "from grid import rtransform as rt",
+             f"tf = rt.{cls}(0.1, 12.0, b={b0!r}); new = rt.{cls}(0.1, 12.0, b={b0!r})"]
+    for meth, g in seq:
+        lines += [f"try:\n    tf.{meth}(np.array({g.tolist()!r}))\nexcept ValueError:\n    pass      # rejected: the maximum of the grid is (nearly) zero"]
+    lines.append(f"x = np.array({x.tolist()!r})")
+    lines.append("assert np.array_equal(tf.transform(x), new.transform(x), equal_nan=True) and tf.b == new.b, 'a rejected call left its scale behind'")
+    return "\n".join(lines) + "\n"
+
+
+def _o_b_rejected(ctx: Ctx, rt, reps=6):
+    """A call rejected because the maximum of its grid is (nearly) zero leaves no trace: after any number of
+    rejected calls (any method, grids on the rejected side of the 1e-16 window) the next accepted call, and
+    everything after it, equals what a new object gives that never saw the rejected grids (repair 92a7e5b)."""
+    for k in range(3 * reps):
+        cls = ctx.rng.choice(list(B_CLASSES))
+        b0 = None if ctx.rng.random() < 0.8 else 5.0
+        tf, new = B_CLASSES[cls](rt, b0), B_CLASSES[cls](rt, b0)
+        seq, n_rej = [], 0
+        for _ in range(ctx.rng.randrange(1, 4)):
+            mx = ctx.rng.choice([0.0, -0.0, 1e-300, 1e-17, 0.99e-16, -1e-17])
+            n = ctx.rng.randrange(1, 5)
+            g = np.array([mx - j for j in range(n)])
+            ctx.np_rng.shuffle(g)
+            meth = ctx.rng.choice([m for m in B_METHODS[cls] if m != "inverse"])
+            seq.append((meth, g))
+            try:
+                with np.errstate(all="ignore"):
+                    getattr(tf, meth)(g)
+            except ValueError:
+                n_rej += 1
+        x = np.arange(float(ctx.rng.randrange(3, 9))) * ctx.rng.choice([1.0, 2.0 ** -20, 2.0 ** 10])
+        ctx.count(["oracle-b-rejected", cls, b0, [(m, g.tolist()) for m, g in seq], x.tolist()], nontrivial=n_rej > 0, tag="oracle:b-rejected")
+        with np.errstate(all="ignore"):
+            try:
+                later, later_b = tf.transform(x), tf.b
+            except Exception as e:   # noqa: BLE001
+                later, later_b = np.full(len(x), np.nan), f"raised {type(e).__name__}"
+            fresh, fresh_b = new.transform(x), new.b
+        ok = np.array_equal(later, fresh, equal_nan=True) and later_b == fresh_b and (b0 is not None or n_rej == len(seq))
+        if b0 is not None:
+            ok = ok and n_rej == 0          # a fixed scale never rejects a grid
+        if not ok:
+            ctx.fail("oracle", "rtransform.set_maximum_parameter_b:rejected-call",
+                     f"{cls}(0.1, 12.0, b={b0}): after {len(seq)} call(s) on grids with a (nearly) zero maximum ({n_rej} raised ValueError) the object has b = {later_b} "
+                     f"and transform({x.tolist()}) = {later.tolist()}; a new object has b = {fresh_b} and gives {fresh.tolist()}",
+                     witness={"class": cls, "b": b0, "rejected_calls": [(m, g.tolist()) for m, g in seq], "x": x.tolist()},
+                     snippet=_b_reject_snippet(cls, b0, seq, x))
+
+
+def _oracle_round3(ctx: Ctx, budget: str):
+    ang = importlib.import_module("grid.angular")
+    rt = importlib.import_module("grid.rtransform")
+    cou = importlib.import_module("grid.coulomb")
+    reps = {"small": 6, "large": 40}[budget] * (3 if ctx.thorough else 1)
+    obs = {}
+
+    def guarded(key, fn, *a):
+        try:
+            r = fn(ctx, *a)
+            if isinstance(r, dict):
+                obs.update(r)
+        except Exception as e:   # noqa: BLE001 - the library raised inside a legal history
+            import traceback
+            ctx.fail("oracle", key + ":exception", f"the library raised {type(e).__name__}: {str(e)[:200]} inside a history of legal calls",
+                     witness={"traceback": traceback.format_exc()[-1500:]}, snippet=EXC_SNIPPETS.get(key))
+    guarded("angular.AngularGrid:cache:fresh-state", _o_angular_matrix, ang, reps)
+    guarded("coulomb.load_atomic_gaussian_params:fresh-state", _o_coulomb_fresh, cou)
+    guarded("hirshfeld.HirshfeldWeights:proatom", _o_hirshfeld, reps)
+    guarded("becke.BeckeWeights:radii", _o_becke, reps)
+    guarded("rtransform.b:objects", _o_b_objects, rt, reps)
+    guarded("rtransform.b:rejected-call", _o_b_rejected, rt, reps)
+    guarded("atomgrid.AtomGrid.basis:memo", _o_basis, reps)
+    guarded("molgrid.MolGrid:atgrids", _o_molgrid_stored, reps)
+    guarded("basegrid.get_localgrid:kdtree", _o_kdtree, reps)
+    # Judged OUTSIDE the property by the lead (DESIGN 8.3: an in-place edit of an array property of a grid without assignment
+    # is outside the clause; the base-class properties return the stored arrays by convention): information only.  The Lean
+    # theorems `basis_memo_corruptible_at` / `memo_stale_after_inplace_edit_at` describe the code as it is.
+    ctx.extra["observed_aliasing (true = present in this tree; outside the property, information only)"] = obs
+    for k, v in obs.items():
+        if v:
+            ctx.info(f"observed (outside the property, information only): {k}")
+
+
+def oracle_at(ctx: Ctx, failure):
+    """Evaluate the property at the history on which model and implementation disagreed."""
+    w = failure.witness or {}
+    if not isinstance(w, dict):
+        return
+    ang = importlib.import_module("grid.angular")
+    if failure.key == "angular.AngularGrid:cache-protocol" and "history" in w:
+        ops = [tuple(o) for o in w["history"]]
+        _clear(ang)
+        arrays = []
+        for k, op in enumerate(ops):
+            if op[0] == "c":
+                _, m, d, cache = op
+                g = ang.AngularGrid(degree=d, method=m, cache=cache)
+                deg, sp, sw = _shipped(ang, m, d)
+                arrays.append((g.points, g.weights))
+                if not (np.array_equal(g.points, sp) and np.array_equal(g.weights, sw)):
+                    lines = ["import warnings; warnings.filterwarnings('ignore')", "import numpy as np", "from grid import angular as ang", "from grid.angular import AngularGrid",
+                             "for c in ('LEBEDEV_CACHE','SPHERICAL_CACHE','MAX_DET_CACHE','AHRENS_BEYLKIN_CACHE'): getattr(ang, c).clear()",
+                             f"ref = AngularGrid(degree={d}, method={m!r}, cache=False); rp, rw = ref.points.copy(), ref.weights.copy()",
+                             "for c in ('LEBEDEV_CACHE','SPHERICAL_CACHE','MAX_DET_CACHE','AHRENS_BEYLKIN_CACHE'): getattr(ang, c).clear()", "gs = []"]
+                    for o in ops[:k + 1]:
+                        if o[0] == "c":
+                            lines.append(f"gs.append(AngularGrid(degree={o[2]}, method={o[1]!r}, cache={bool(o[3])}))")
+                        else:
+                            lines.append(f"gs[{o[1]}].{'points' if o[2] == 'p' else 'weights'}[...] = {float(o[3])}")
+                    lines.append("assert np.array_equal(gs[-1].points, rp) and np.array_equal(gs[-1].weights, rw), 'grid differs from the shipped data after this history'")
+                    ctx.fail("oracle", "angular.AngularGrid:cache", f"history of {k + 1} operations: AngularGrid(degree={d}, method={m!r}, cache={cache}) does not return the shipped data",
+                             witness={"history": [list(o) for o in ops[:k + 1]]}, snippet="\n".join(lines) + "\n")
+                    break
+            else:
+                _, i, which, v = op
+                arrays[i][0 if which == "p" else 1][...] = float(v)
+        _clear(ang)
+    elif failure.key.startswith(("basegrid.kdtree", "atomgrid.AtomGrid.basis", "module-state", "rtransform.")):
+        _oracle_round3(ctx, "large")
+
+
+# ------------------------------------------------------------------------------------------
+# History independence against a *fresh process*: a new object in this process shares every
+# module-level object, class attribute and function cache with the histories that ran before, so it
+# is no reference for state kept there.  Each family of observations below is evaluated once in a
+# process of its own (started before the histories, in parallel) and once in this process after all
+# histories, in the opposite order; the bits must agree.
+# ------------------------------------------------------------------------------------------
+FAMILIES = ("angular", "becke", "basis", "misc")
+
+
+def _bits(a):
+    import hashlib
+    a = np.ascontiguousarray(np.asarray(a, dtype=float))
+    return f"{a.shape}:{hashlib.blake2b(a.tobytes(), digest_size=10).hexdigest()}"
+
+
+def _observations(family):
+    """-> [(name, thunk)] in canonical order; every thunk builds its objects anew and returns arrays."""
+    import warnings
+    warnings.filterwarnings("ignore")
+    ang = importlib.import_module("grid.angular")
+    atg = importlib.import_module("grid.atomgrid")
+    rt = importlib.import_module("grid.rtransform")
+    one = importlib.import_module("grid.onedgrid")
+    out = []
+    rg = rt.BeckeRTransform(0.0, 1.5).transform_1d_grid(one.GaussLegendre(5))
+    if family == "angular":
+        mol = importlib.import_module("grid.molgrid")
+        bk = importlib.import_module("grid.becke")
+        for m in METHODS:
+            tab = sorted(int(k) for k in getattr(ang, PFX[m] + "_DEGREES"))
+            for d in tab[:3]:
+                out.append((f"AngularGrid({m},{d})", lambda m=m, d=d: (lambda g: [g.points, g.weights])(ang.AngularGrid(degree=d, method=m))))
+                out.append((f"AngularGrid({m},size of {d})", lambda m=m, d=d: (lambda g: [g.points, g.weights])(
+                    ang.AngularGrid(size=int(getattr(ang, PFX[m] + "_DEGREES")[d]), method=m.upper(), cache=False))))
+            d = tab[1]
+            out.append((f"AtomGrid({m},{d})", lambda m=m, d=d: (lambda a: [a.points, a.weights, a.get_shell_grid(2).points])(
+                atg.AtomGrid(rg, degrees=[d], method=m, center=np.array([0.0, 0.1, 0.2]), rotate=3))))
+            out.append((f"MolGrid({m},{d})", lambda m=m, d=d: (lambda g: [g.points, g.weights])(
+                mol.MolGrid(np.array([1, 8]), [atg.AtomGrid(rg, degrees=[d], method=m, center=np.array(c)) for c in ([0.0, 0.0, -0.7], [0.0, 0.0, 0.7])],
+                            bk.BeckeWeights(), store=True))))
+    elif family == "becke":
+        bk = importlib.import_module("grid.becke")
+        pts = np.linspace(-2.0, 2.0, 42).reshape(14, 3) * np.array([1.0, -0.7, 0.4])
+        atc = np.array([[0.0, 0.0, -0.7], [0.0, 0.3, 0.7], [0.9, 0.0, 0.0]])
+        ind = np.array([0, 5, 9, 14])
+        news = [lambda: bk.BeckeWeights(), lambda: bk.BeckeWeights(radii={1: 0.8, 6: 1.4}, order=2), lambda: bk.BeckeWeights(order=4)]
+        for z in ([1, 6, 8], [1, 8, 6], [1, 7, 7], [2, 1, 7], [8, 8, 1], [8, 1, 8], [6, 8, 1], [6, 1, 8]):
+            for j, new in enumerate(news):
+                out.append((f"BeckeWeights#{j}{z}", lambda z=z, new=new: [new()(pts, atc, np.array(z), ind),
+                                                                          new().compute_weights(pts, atc, np.array(z), pt_ind=ind)]))
+        hw = importlib.import_module("grid.hirshfeld")
+        for z in ([1, 8, 6], [6, 8, 1], [7, 7, 1]):
+            out.append((f"HirshfeldWeights{z}", lambda z=z: [hw.HirshfeldWeights()(pts, atc, np.array(z), ind)]))
+    elif family == "basis":
+        probe = np.array([[0.3, 0.1, -0.2], [0.0, 0.9, 0.4], [-1.1, 0.2, 0.3]])
+        for deg in (3, 5, 7):
+            for cz in (0.0, 0.4):
+                for fk in (0, 1):
+                    def obs(deg=deg, cz=cz, fk=fk):
+                        cen = np.array([0.0, 0.0, cz])
+                        a = atg.AtomGrid(rg, degrees=[deg], center=cen)
+                        r2 = np.sum((a.points - cen) ** 2, axis=1)
+                        f = (np.exp(-r2), np.exp(-0.5 * r2) * (1.0 + (a.points - cen)[:, 2]))[fk]
+                        return [_spline_values(a.radial_component_splines(f)), a.interpolate(f)(probe + cen), a.basis]
+                    out.append((f"basis(deg={deg},z={cz},f{fk})", obs))
+    elif family == "misc":
+        hw = importlib.import_module("grid.hirshfeld")
+        cou = importlib.import_module("grid.coulomb")
+        utils = importlib.import_module("grid.utils")
+        bg = importlib.import_module("grid.basegrid")
+        pts = np.linspace(-2.0, 2.0, 36).reshape(12, 3) * np.array([1.0, -0.7, 0.4])
+        for num in sorted(int(p.stem[1:]) for p in (SRC / "data" / "proatoms").glob("a*.npz")):
+            out.append((f"proatom({num})", lambda num=num: [hw.HirshfeldWeights.generate_proatom(pts, np.array([0.1, -0.2, 0.3]), num)]))
+        for el in ("H", 6, "o", 26):
+            out.append((f"coulomb({el!r})", lambda el=el: list(cou.load_atomic_gaussian_params(el))))
+        for t in ("bragg", "cambridge", "alvarez"):
+            out.append((f"cov_radii({t})", lambda t=t: [np.nan_to_num(utils.get_cov_radii(np.arange(1, 87), t), nan=-1.0), np.nan_to_num(utils.get_cov_radii(6, t), nan=-1.0)]))
+        for cls in B_CLASSES:
+            for n in (4, 9):
+                out.append((f"{cls}(n={n})", lambda cls=cls, n=n: (lambda tf: [tf.transform(np.arange(float(n))), tf.deriv(np.arange(7.0)), np.array([tf.b])])(B_CLASSES[cls](rt, None))))
+        p3 = np.linspace(-1.0, 1.0, 90).reshape(30, 3) * np.array([1.0, -0.5, 0.25])
+        out.append(("localgrid", lambda: (lambda lg: [np.sort(lg.indices)])(bg.Grid(p3.copy(), np.ones(30)).get_localgrid(np.zeros(3), 0.6))))
+        out.append(("AtomGrid(default degrees)", lambda: (lambda a: [a.weights, np.array(a.degrees, dtype=float)])(
+            atg.AtomGrid(rt.BeckeRTransform(0.0, 1.5).transform_1d_grid(one.GaussLegendre(2))))))
+        out.append(("AtomGrid.from_preset(coarse,Z=6)", lambda: (lambda a: [a.points, a.weights])(atg.AtomGrid.from_preset(atnum=6, preset="coarse"))))
+    else:
+        raise ValueError(family)
+    return out
+
+
+def _observe(family, reverse=False):
+    obs = _observations(family)
+    if reverse:
+        obs = obs[::-1]
+    res = {}
+    for name, thunk in obs:
+        try:
+            res[name] = [_bits(a) for a in thunk()]
+        except Exception as e:   # noqa: BLE001
+            res[name] = [f"raised {type(e).__name__}"]
+    return res
+
+
+def _observe_main(family):
+    import json
+    import sys
+    sys.stdout.write("@@" + json.dumps(_observe(family)) + "\n")
+
+
+def _pristine_start():
+    """Start one fresh process per family. -> {family: Popen}"""
+    import os
+    import subprocess
+    import sys
+    env = dict(os.environ)
+    if os.environ.get("GRID_REPO"):
+        env["PYTHONPATH"] = os.path.join(os.environ["GRID_REPO"], "src") + os.pathsep + env.get("PYTHONPATH", "")
+    procs = {}
+    for fam in FAMILIES:
+        procs[fam] = subprocess.Popen([sys.executable, "-c", f"from harness.props.c19 import _observe_main; _observe_main({fam!r})"],
+                                      cwd=str(__import__('pathlib').Path(__file__).resolve().parents[2]),
+                                      env=env, stdout=subprocess.PIPE, stderr=subprocess.PIPE, text=True)
+    return procs
+
+
+SNIP_PROCESS = """import subprocess, sys, json
+verif, fam, seed, tier, budget = %r, %r, %r, %r, %r
+pre = 'import sys; sys.path.insert(0, %%r); import json; from harness.props import c19; ' %% verif
+fresh = pre + 'print("@@" + json.dumps(c19._observe(%%r)))' %% fam
+after = pre + 'print("@@" + json.dumps(c19._observe_after_histories(%%r, %%r, %%r, %%r)))' %% (fam, seed, tier, budget)
+def run(code):
+    out = subprocess.run([sys.executable, '-c', code], capture_output=True, text=True).stdout
+    return json.loads([l for l in out.splitlines() if l.startswith('@@')][0][2:])
+a, b = run(fresh), run(after)
+bad = [k for k in a if a[k] != b[k]]
+assert not bad, f'observations that differ between a fresh process and a process that first ran the histories of the check: {bad}'
+"""
+
+
+def _observe_after_histories(family, seed, tier, budget):
+    """What `_pristine_compare` compares with the fresh process: the observations after the histories of a run."""
+    ctx = Ctx("C19", tier, seed)
+    _oracle_histories(ctx, budget)
+    _oracle_round3(ctx, budget)
+    return _observe(family, reverse=True)
+
+
+def _pristine_compare(ctx: Ctx, procs, budget="small"):
+    import json
+    for fam, p in procs.items():
+        try:
+            out, err = p.communicate(timeout=300)
+            line = [ln for ln in out.splitlines() if ln.startswith("@@")]
+            ref = json.loads(line[0][2:])
+        except Exception as e:   # noqa: BLE001
+            ctx.info(f"fresh-process reference for {fam} unavailable: {type(e).__name__}: {str(e)[:100]}")
+            continue
+        got = _observe(fam, reverse=True)
+        for name in ref:
+            ctx.count(["fresh-process", fam, name], nontrivial=True, tag=f"oracle:fresh-process:{fam}")
+            if got.get(name) != ref[name]:
+                ctx.fail("oracle", f"history-independence:{fam}",
+                         f"{name}: the value observed after the histories of this run differs bit for bit from the value a fresh process observes "
+                         f"(this process {got.get(name)}, fresh process {ref[name]}): the result depends on what happened before in the process",
+                         witness={"family": fam, "observation": name},
+                         snippet=SNIP_PROCESS % (str(__import__('pathlib').Path(__file__).resolve().parents[2]), fam, ctx.seed, ctx.tier, budget))
